@@ -1030,6 +1030,9 @@ const W_Q: &[usize] = &[0, 1, 7, 8, 9, 16, 60, 63, 64, 65, 127, 128, 129, 160, 2
 fn c16(r: &Runner) {
     r.set_rule("values: the mode-boundary universe 2^k + d for EVERY k <= BITS (contains 0, 0x7f/0x80, 2^6, 2^14, 2^30, every 2^(8j)-1 / 2^(8j), the 55/56-byte RLP boundary at 2^440, MAX) united with S(B) for B <= 12 resp. the limb-alphabet product and run shapes (small values in wide types); widths incl. 0, non-byte-aligned, the 60/250-bit class, 440/441/448 (RLP long form), 528/535 (compact bound). per value: every encoder's bytes = the independent reference codec; advertised lengths exact, size hints within one prefix word, maxima not below a produced length; decode(encoding) = value for every decoder; postgres round trip for every non-float column type whose encoding succeeds; primitive-types / bytemuck / ark-ff conversions at their fixed widths; where the codec crate encodes u64/u128 itself the bytes are compared with that encoding too. every case is non-trivial");
     for &bits in if r.is_thorough() { WIDTHS } else { W_Q } {
+        if bits > 100_000 {
+            continue; // the GIANT width has its own small universe below (one value is 64 KiB)
+        }
         let (vals, d) = c16_values(r, bits);
         r.universe(&format!("{d}: encoders = reference codecs, lengths, round trips"), bits, vals.len(), |i, l| {
             let a = vu(&vals[i]);
@@ -1395,6 +1398,9 @@ fn c17(r: &Runner) {
     r.set_rule("every input goes to EVERY decoder (cross-format confusion included): (a) ALL byte strings of length 0..=2 (3 thorough, at widths <= 16); (b) every valid encoding (RLP, DER, JSON quantity / decimal text, NUMERIC, JSONB, SCALE fixed and compact, bincode, fixed LE/BE at BYTES and BYTES+1, VARBIT, non-minimal RLP/DER forms) of every value of the codec value universe and of the out-of-range values 2^B, 2^B+1, 2^B*256, with every single-field mutation: each truncation, one byte appended, each of the first 12 / last 3 bytes replaced by {00,01,7f,80,ff,+1,-1}, a zero inserted near the front with and without bumping the preceding length byte; (c) postgres header fields over boundary values. oracle: a reference reader per format says what the bytes denote; the outcome must be an error or exactly that value, < 2^BITS, canonical; for alloy-rlp, fastrlp, DER an accepted input must equal the reference encoding of its value (non-minimal forms rejected). every case is non-trivial");
     let ws: &[usize] = if r.is_thorough() { WIDTHS } else { &[0, 1, 7, 8, 9, 16, 60, 63, 64, 65, 127, 128, 250, 256, 257, 440, 448, 535, 1024] };
     for &bits in ws {
+        if bits > 100_000 {
+            continue; // GIANT width: encoders only (C16)
+        }
         let maxlen = if r.is_thorough() && bits <= 16 { 3 } else { 2 };
         let total: usize = (0..=maxlen).map(|k| 1usize << (8 * k)).sum();
         r.universe(&format!("ALL byte strings of length 0..={maxlen} -> every decoder"), bits, total, |i, l| {
